@@ -16,7 +16,7 @@ func init() {
 // existingPlugin.GetMetadata, m.Uninstall, file.CopyToDir / CopyDirToDir) is an oracle `env`.
 var srcC20b = []*g2lTarget{
 	{
-		file: "plugin/manager.go", recv: "CLIManager", fn: "Install", leanName: "installTail", after: "newPlugin.GetMetadata",
+		file: "plugin/manager.go", recv: "CLIManager", fn: "Install", recvName: "m", leanName: "installTail", after: "newPlugin.GetMetadata",
 		params: "(env : Env) (overwrite : Bool) (pluginName : String) (newPluginMetadata : Option plugin.GetMetadataResponse) " +
 			"(installFromNonDir : Bool) (pluginExecutableFile pluginDirPath : String) (installOpts : CLIInstallOptions) (err : Option GoLite.Err)",
 		ret:        "Option plugin.GetMetadataResponse × Option plugin.GetMetadataResponse × Option GoLite.Err",
